@@ -137,7 +137,7 @@ impl<'a> Context<'a> {
             let scope_id = self.scopes.last().map_or(0, |(id, _)| *id);
             hash.update(scope_id.to_be_bytes());
         }
-        node.digest(&mut hash);
+        node.digest(&mut hash, self.mods.base());
         atom::Ident::from(format!("hash-{:x}", hash.finalize()))
     }
 }
